@@ -21,11 +21,12 @@ Span(c, line) ==
     ELSE IF line = c.item_line THEN {<<line, ch>> : ch \in 5..10}          \* "- it [i](2)"
     ELSE IF line = c.j_line THEN {<<line, ch>> : ch \in 7..12}             \* "  more [j](2)"
     ELSE IF line = c.quote_line THEN {<<line, ch>> : ch \in 2..7}          \* "> [q](2)"
+    ELSE IF line = c.wiki_line THEN {<<line, ch>> : ch \in (2..6) \cup (10..16)}   \* "w [[2]] x [[2|s]] y"
     ELSE IF line = c.cell_line THEN {<<line, ch>> : ch \in 6..11}          \* "| c | [c](2) |"
     ELSE IF line = c.z_line THEN {<<line, ch>> : ch \in 5..10}             \* "tail [z](2)"
     ELSE IF line = c.y_line THEN {<<line, ch>> : ch \in 4..9}              \* "end [y](2)"
     ELSE {}
-Window(c) == UNION {{<<line, ch>> : ch \in 0..(c.link_end + 6)} : line \in 0..(c.last_line + 1)}
+Window(c) == UNION {{<<line, ch>> : ch \in 0..c.maxch} : line \in 0..(c.last_line + 1)}
 Expected(c) == (UNION {Span(c, line) : line \in 0..(c.last_line + 1)}) \cap Window(c)
 
 \* (with nothing before or after it the link under test is itself a block reference)
@@ -46,7 +47,7 @@ Reasons(e) ==
         \cup {<<"rename-range-wrong", q>> :
                  q \in {r \in Range(e.prep) : r[1] = c.link_line /\ (r[3] # c.link_line \/ r[4] # c.url_start \/ r[5] # c.link_line \/ r[6] # c.url_end)}}
         \* locations name the line where the block really is
-        \cup (IF e.ref_lines # <<c.block_line, c.ref_line, c.item_line, c.quote_line, c.table_line, c.z_line>> THEN {<<"reference-lines", e.ref_lines>>} ELSE {})
+        \cup (IF e.ref_lines # <<c.block_line, c.ref_line, c.item_line, c.quote_line, c.wiki_line, c.table_line, c.z_line>> THEN {<<"reference-lines", e.ref_lines>>} ELSE {})
         \cup (IF e.hint_lines # RefBlockLines(c) THEN {<<"hint-lines", e.hint_lines>>} ELSE {})
         \cup (IF e.sym_lines # <<c.head_line>> THEN {<<"symbol-lines", e.sym_lines>>} ELSE {})
         \* code actions offered at a line operate on the block that covers that line
